@@ -131,6 +131,8 @@ def task_generate(arg: Tuple[int, bool]) -> Dict[str, Any]:
         ft.tautologies_after_narrowing = False  # ill-typed on purpose
         ft.arithmetic_on_constrained = False    # ill-typed on purpose
         ft.multiple_patterns_per_value = False  # greenery can take minutes
+    if not hazards:
+        ft.impl_specific = seed % 3 == 0  # implementation-specific methods/functions need per-target snippets
     m = mm.random_mm(rng, rng.randint(1, 7), ft)
     text = mm.render(m)
     loaded = mm.load(text)
@@ -171,7 +173,9 @@ def task_generate(arg: Tuple[int, bool]) -> Dict[str, Any]:
 
 def task_sdk(seed: int) -> Dict[str, Any]:
     rng = random.Random(seed)
-    m = mm.random_mm(rng, rng.randint(1, 6))
+    ft = mm.Features()
+    ft.impl_specific = seed % 3 == 0
+    m = mm.random_mm(rng, rng.randint(1, 6), ft)
     text = mm.render(m)
     stat: collections.Counter = collections.Counter()
     findings: List[Tuple[str, str]] = []
